@@ -59,6 +59,12 @@ CHECKS["C09"] = dict(
    note="Trusted: reference CSV parser, encoding/json token stream, fixed-width parse of String(). Views' ItemAt is the reference observation.",
    design="5/C09")
 
+CHECKS["C10"] = dict(
+   technique="complete enumeration of argument-zoo products per operation and of error-continuation histories (depth-bounded) with counting callbacks",
+   text="Full products of argument menus drawn from the documented dynamic union types for Filter (6 columns x 28 comparators x 22 arguments x Inverse, in 5 clause wrappers), Apply/FilteredApply (26 Fn values x 6 names x 7x7 sources), GroupBy/Aggregate (16 Fn x 6 columns x 4 As x 4 key lists) and ~50 other invalid requests, on 5 frame variants incl. an empty and an aggregated frame: never a panic; everything the classification table calls invalid sets Err with Len() = -1. Every errored frame (about 100 ways of producing one) x every continuation of length <= 2 over 31 operations with counting callbacks: the error is kept, no callback runs, GroupBy/Aggregate/QFrames carry it, ToCSV/ToJSON/ToSQL fail without writing.",
+   note="Trusted: the validity tables in checks/c10.go (combinations they leave unclassified are checked for panics only).",
+   design="5/C10")
+
 NOT_YET = {}
 BASELINE_CMD = "for m in $(cat /w/out/gomods.txt); do MF=$(cd /repo/$m && . /w/out/goenv.sh && gomodflag); (cd /repo/$m && go test $MF -json -vet=off -count=1 -timeout 25m ./...); done"
 
